@@ -24,6 +24,8 @@ type c17Model struct {
 	tcount   map[string]uint64
 	hsamples map[string][]float64 // in seconds for duration histograms
 	hbounds  map[string][]float64
+	dbounds  map[string][]time.Duration // duration histograms: the configured bounds and the samples as durations, so that
+	dsamples map[string][]time.Duration // "sample <= bound" is decided on integers, whatever conversion to seconds is used
 }
 
 func lbl(name string, tags map[string]string) string { return name + tagString(tags) }
@@ -32,7 +34,7 @@ func c17Ops() []c17Op {
 	k1, k2 := map[string]string{"k": "1"}, map[string]string{"k": "2"}
 	vspec := tally.ValueBuckets{1, 2}
 	// bounds whose conversion to seconds is sensitive to how it is computed (1.14s, 1.39s)
-	dspec := tally.DurationBuckets{500 * time.Millisecond, 1140 * time.Millisecond, 1390 * time.Millisecond, 2 * time.Second}
+	dspec := tally.DurationBuckets{500 * time.Millisecond, 1118 * time.Millisecond, 1140 * time.Millisecond, 1390 * time.Millisecond, 2 * time.Second}
 	var ops []c17Op
 	addC := func(t map[string]string, v int64) {
 		ops = append(ops, c17Op{fmt.Sprintf("c%s inc %d", tagString(t), v), func(r tally.Scope, m *c17Model) {
@@ -81,12 +83,14 @@ func c17Ops() []c17Op {
 			m.hbounds[lbl("s_hw", map[string]string{})] = []float64{0.5, 4}
 		}})
 	}
-	for _, d := range []time.Duration{1140 * time.Millisecond, 1390 * time.Millisecond, time.Second, 3 * time.Second} {
+	for _, d := range []time.Duration{1118 * time.Millisecond, 1140 * time.Millisecond, 1390 * time.Millisecond, time.Second, 3 * time.Second} {
 		d := d
 		ops = append(ops, c17Op{fmt.Sprintf("hd rec %v", d), func(r tally.Scope, m *c17Model) {
 			r.Histogram("hd", dspec).RecordDuration(d)
 			m.hsamples[lbl("hd", map[string]string{})] = append(m.hsamples[lbl("hd", map[string]string{})], float64(d)/float64(time.Second))
 			m.hbounds[lbl("hd", map[string]string{})] = dspec.AsValues()
+			m.dbounds[lbl("hd", map[string]string{})] = dspec.AsDurations()
+			m.dsamples[lbl("hd", map[string]string{})] = append(m.dsamples[lbl("hd", map[string]string{})], d)
 		}})
 	}
 	// names and tag keys that concatenate to the same string with '_' (legal: no name is reused)
@@ -147,6 +151,35 @@ func gatherCheck(reg *prom.Registry, m *c17Model, timers map[string]uint64) (str
 				if mt.Histogram.GetSampleCount() != uint64(len(samples)) {
 					return "histogram-total", fmt.Sprintf("%s total %d, %d samples recorded", id, mt.Histogram.GetSampleCount(), len(samples))
 				}
+				if db := m.dbounds[id]; db != nil {
+					// duration histogram: bucket i belongs to the configured bound i; the exposed bound is that
+					// duration in seconds (to within rounding) and its count the samples that are <= it as durations
+					var fin []*dto.Bucket
+					for _, b := range mt.Histogram.Bucket {
+						if !math.IsInf(b.GetUpperBound(), 1) {
+							fin = append(fin, b)
+						}
+					}
+					if len(fin) != len(db) {
+						return "histogram-bounds", fmt.Sprintf("%s exposed with %d finite bounds, created with %v", id, len(fin), db)
+					}
+					for i, b := range fin {
+						sec := float64(db[i]) / float64(time.Second)
+						if math.Abs(b.GetUpperBound()-sec) > 1e-12*math.Abs(sec) {
+							return "histogram-bounds", fmt.Sprintf("%s bound %d exposed as %v, created as %v", id, i, b.GetUpperBound(), db[i])
+						}
+						var want uint64
+						for _, d := range m.dsamples[id] {
+							if d <= db[i] {
+								want++
+							}
+						}
+						if b.GetCumulativeCount() != want {
+							return "histogram-cumulative-count", fmt.Sprintf("%s: cumulative count at bound %v (exposed as %v) is %d, %d recorded durations are <= that bound (durations %v)", id, db[i], b.GetUpperBound(), b.GetCumulativeCount(), want, m.dsamples[id])
+						}
+					}
+					continue
+				}
 				if hb := m.hbounds[id]; hb != nil {
 					var exposed []float64
 					for _, b := range mt.Histogram.Bucket {
@@ -201,7 +234,8 @@ func gatherCheck(reg *prom.Registry, m *c17Model, timers map[string]uint64) (str
 }
 
 func newC17Model() *c17Model {
-	return &c17Model{counters: map[string]float64{}, gauges: map[string]float64{}, tcount: map[string]uint64{}, hsamples: map[string][]float64{}, hbounds: map[string][]float64{}}
+	return &c17Model{counters: map[string]float64{}, gauges: map[string]float64{}, tcount: map[string]uint64{}, hsamples: map[string][]float64{}, hbounds: map[string][]float64{},
+		dbounds: map[string][]time.Duration{}, dsamples: map[string][]time.Duration{}}
 }
 
 func c17Jobs(tier string) []*SeqJob {
